@@ -72,6 +72,10 @@ class ParamsGenerator:
 
     if model_qsvs is None:
       model_qsvs = {}
+    else:
+      # Materialization rewrites QSVs of constrained tensors in place; work on
+      # a copy so that the caller's calibration result is never modified.
+      model_qsvs = copy.deepcopy(model_qsvs)
 
     op_codes = self.flatbuffer_model.operatorCodes
     for subgraph in self.flatbuffer_model.subgraphs:
